@@ -134,6 +134,15 @@ func ASCII85Decode(data []byte) ([]byte, error) {
 			digits = append(digits, 84) // 'u' - '!' = 84
 		}
 
+		// A group whose value exceeds 2^32-1 cannot be produced by any encoder
+		wide := uint64(0)
+		for _, d := range digits {
+			wide = wide*85 + uint64(d)
+		}
+		if wide > 0xFFFFFFFF {
+			return nil, fmt.Errorf("invalid ASCII85 group: value exceeds 2^32-1")
+		}
+
 		// Convert base-85 to binary
 		// Each group of 5 digits represents 4 bytes
 		value := uint32(0)
